@@ -243,9 +243,17 @@ let run_disp_pred toks =
          | Some (rsts, fw, post, syns) ->
            let o = { so_pre = pre; so_rsts = z_of_int rsts; so_fwd = fw; so_post = post } in
            let ok = (if which = "c13" then c13_step_ok o else c12_step_ok (z_of_string max_streams) o) in
-           if not ok then Printf.sprintf "FAIL %s_step_ok step=%d" which i
+           if not ok then Printf.sprintf "FAIL %s_step_ok step=%d" (if which = "c10" then "c12" else which) i
            else if which = "c12" && not (c12_syn_fresh_ok pre syns) then Printf.sprintf "FAIL c12_syn_fresh_ok step=%d" i
            else go post (i + 1) rest) in
+    if which = "c10" then
+      (* socket half of C10: no datagram, however malformed, makes the dispatcher panic, evicts a live connection
+         or forwards anything to a connection it does not name (c12_step_ok), whatever is sent to it *)
+      (if List.mem "PANIC" obs then "FAIL c10_disp_no_panic"
+       else match obs with
+         | first :: rest -> (match parse first with Some (_, _, d0, _) -> go d0 0 rest | None -> "OK")
+         | [] -> "OK")
+    else
     (match obs with
      | first :: rest -> (match parse first with Some (_, _, d0, _) -> go d0 0 rest | None -> "OK")
      | [] -> "OK")
